@@ -17,7 +17,7 @@ LEVEL = "exploration"
 SHARDS = {"quick": 16, "thorough": 16}
 KINDS = ("integer", "float", "enumerated", "boolean", "string", "binary", "abstime", "reltime")
 MUST = [f"fields.{k}" for k in KINDS] + ["packets.depth>=2", "stream.items", "stream.error_objects", "outcome.unrecognized",
-                                          "outcome.ok", "read_as_int.evaluations", "selfcheck.documents"]
+                                          "outcome.ok", "read_as_int.evaluations", "selfcheck.documents", "mission.packets"]
 RULE = ("document = seeded IR (container tree depth<=3, fan-out<=3, nested/shared containers, all eight parameter-type "
         "kinds, every encoding, calibrators, criteria of every form, dynamic lengths) rendered by my writer and loaded "
         "by the library; packets = steered by a forward sampler towards every container plus dead ends and "
@@ -32,7 +32,7 @@ ASSUMPTIONS = ["documents and packets are drawn within the generator's bounds (d
                "leading-size strings whose text would run into the padding, and terminator matches involving padding bits, are not compared"]
 
 
-def compare_stream(ctx, info, defn, raws, outs, kind, yield_unrec, rng, prop="C01"):
+def compare_stream(ctx, info, defn, raws, outs, kind, yield_unrec, rng, prop="C01", root=None):
     """run packet_generator over the concatenated packets and compare the yielded items with the model"""
     from space_packet_parser import exceptions as X
     from space_packet_parser import packets as P
@@ -40,6 +40,8 @@ def compare_stream(ctx, info, defn, raws, outs, kind, yield_unrec, rng, prop="C0
     exp = harness.stream_expectation(outs, True, yield_unrec)
     src = None
     kw = {"yield_unrecognized_packet_errors": yield_unrec}
+    if root is not None:
+        kw["root_container_name"] = root
     try:
         if kind == "bytes":
             src = stream
@@ -150,6 +152,52 @@ def run_document(ctx, seed_key, profile=None, npackets=25, sample=False):
                            kinds[(hash(seed_key) + j) % 3] if isinstance(seed_key, int) else kinds[j], yu, rng)
 
 
+MISSIONS = [("jpss/jpss1_geolocation_xtce_v1.xml", "jpss/J01_G011_LZ_2021-04-09T00-00-00Z_V01.DAT1", {}, "CCSDSPacket", 120, 7200),
+            ("suda/suda_combined_science_definition.xml", "suda/sciData_2022_130_17_41_53.spl", {"skip_header_bytes": 4}, "CCSDSPacket", 13, 400),
+            ("ctim/ctim_xtce_v1.xml", "ctim/ccsds_2021_155_14_39_51", {}, "CCSDSTelemetryPacket", 40, 3000),
+            ("idex/idex_combined_science_definition.xml", "idex/sciData_2023_052_14_45_05", {}, "CCSDSPacket", 30, 400)]
+
+
+def mission_replay(ctx, which):
+    """in-situ: the recorded mission files decoded by the model from MY reader's IR of the mission documents; every field
+    of every recorded packet is compared with what the library decodes (single parse and generator stream)."""
+    import warnings
+    from vmon import core, reader
+    from space_packet_parser import packets as P
+    xml, pk, kw, root, nq, nt = MISSIONS[which]
+    base = os.path.join(core.REPO, "tests", "test_data")
+    with open(os.path.join(base, xml), "rb") as f:
+        G = f.read()
+    doc = reader.read_xml(G)
+    doc = ir.Doc(doc.types, doc.params, doc.containers, root, doc.system_name, doc.date)
+    info = harness.DocInfo(doc)
+    with warnings.catch_warnings():
+        warnings.simplefilter("ignore")
+        defn = load_definition(G, "xtce", root)
+    limit = ctx.size(nq, nt)
+    raws = []
+    with open(os.path.join(base, pk), "rb") as f:
+        for i, raw in enumerate(P.ccsds_generator(f, **kw)):
+            if i >= limit:
+                break
+            raws.append(bytes(raw))
+    outs = []
+    for raw in raws:
+        out = ref.walk(doc, raw, root)
+        outs.append(out)
+        step, pkt = harness.parse_single(defn, raw, root)
+        ctx.count("evaluations")
+        ctx.count("mission.packets")
+        ctx.count(f"mission.{xml.split('/')[0]}.fields", len(out.items))
+        for mech, msg in harness.judge_single(ctx, info, raw, step, pkt, out):
+            ctx.violation(f"mission/{xml.split('/')[0]}/" + mech, msg, {"document": xml, "raw": raw[:64], "path": out.path})
+    good = [(r, o) for r, o in zip(raws, outs) if o.status in ("ok", "unrecognized") and not harness.has_dontcare(o)]
+    if good:
+        compare_stream(ctx, info, defn, [g[0] for g in good][:400], [g[1] for g in good][:400], "file", True, ctx.rng("m"),
+                       root=root)
+    ctx.sig("mission", xml)
+
+
 def run(ctx):
     contracts.arm_reads(ctx)
     contracts.arm_numeric(ctx)
@@ -160,3 +208,6 @@ def run(ctx):
         if not ctx.mine(i):
             continue
         run_document(ctx, i + 100000 * ctx.seed, npackets=npk, sample=(i < 2))
+    for m in range(len(MISSIONS)):
+        if ctx.mine(m + 5):
+            mission_replay(ctx, m)
